@@ -92,6 +92,18 @@ def _pin_eqs(witness):
     return out
 
 
+def _genericity():
+    xs = [x for t in T.ctx().inputs.values() for x in t.sym.reshape(-1) if z3.is_real(x)]
+    xs = xs[:24]
+    out = []
+    for i, x in enumerate(xs):
+        out += [x != 0, x != 1, x != -1, x > -3, x < 3]
+        for y in xs[i + 1 :]:
+            out.append(x != y)
+            out.append(x != -y)
+    return out
+
+
 class Recorder:
     def __init__(self, prop, task, functions=()):
         self.prop = prop
@@ -141,6 +153,8 @@ class Recorder:
         self.obligations += 1
         v = T.prove(goal, timeout_ms=timeout_ms, extra=extra, tactics=tactics)
         full = f"{self.task}:{name}"
+        if os.environ.get("VERIF_DEBUG"):
+            print(f"[dbg] {full}: {v.status} {v.seconds:.2f}s {v.tactic}", flush=True)
         if v.status == "unsat":
             self.discharged += 1
             if self.obligations <= 3:
@@ -168,6 +182,13 @@ class Recorder:
         model = v.model
         tried = 0
         blocking = []
+        # prefer a *generic* counterexample (inputs non-zero, not one, pairwise distinct): abstracted functions make
+        # degenerate models (all zeros) uninformative when replayed with the true functions
+        gen = _genericity()
+        if gen:
+            vg = T.prove(goal, timeout_ms=min(timeout_ms, 15000), extra=list(extra) + gen)
+            if vg.status == "sat":
+                model = vg.model
         while True:
             tried += 1
             try:
